@@ -9,14 +9,23 @@
   OBLIGATION c03_resolver_error_witness
   OBLIGATION c03_list_path_witness
   OBLIGATION c03_iface_path_witness
-  OPEN c03_full
+  OBLIGATION c03_repeated_key_error_witness
+  OBLIGATION c03_full_refuted
+  OBLIGATION c03_partial_nodup
+  OBLIGATION c03_partial_nodup_example
+  OPEN c03_fuelbound_full
+
+  `c03_full` (first formulation, no hypotheses) is REFUTED, on a valid document
+  (`c03_full_refuted`): a repeated response key whose later occurrence is nulled by a propagating
+  error keeps the earlier partial object.  Proved instead: `c03_partial_nodup`.
 -/
 import AGV.Lemmas.ExecStatic
+import AGV.Lemmas.ExecStaticData
 
 namespace AGV.Props.C03
 open AGV.Core AGV.Model.ExecStatic AGV.Lemmas.ExecStatic AGV.Spec.Exec
 
-/-- FULL STATEMENT (open): for every valid document and every world with faults, the model
+/-- First formulation (REFUTED below, `c03_full_refuted`; kept for the record): for every valid document and every world with faults, the model
     without defects gives the specification's data, reports a sub-multiset of the
     specification's errors (siblings cancelled by a propagating error may stay silent), and
     exactly one error per resolver that ran and failed.  Checked per case by the judge. -/
@@ -117,5 +126,62 @@ theorem c03_iface_path_witness :
     (run { ifaceErrNoPath := true } S0 (opOf selNode) none [] w0 10).errs = [⟨[], p0⟩] ∧
     (run Defects.none S0 (opOf selNode) none [] w0 10).errs = [⟨[.key "node", .key "req"], p0⟩] := by
   refine ⟨by rfl, by rfl⟩
+
+-- ------------------------------------------------------------------ the full statement: refuted, and what holds
+
+/-- `{ node { __typename }  node { req } }` — a VALID document (both occurrences of the response key
+    `node` name the same field without arguments) in the world where `req: Int!` fails -/
+def docRepeat : Doc := { ops := [{ ty := .query, name := none, vars := [], dirs := [], sels := [
+  Sel.field none "node" [] [] [Sel.field none "__typename" [] [] [] p0] p0, selNode] }], frags := [] }
+
+/-- the model (like the real `merge_value`, whose `_ => {}` arm keeps the earlier value; reproduced on
+    the real executor, replays/C01/repeated-key-error.case) leaves the partial object of the first
+    occurrence in place although the error of the second occurrence nulled the nullable position
+    `node`; the specification answers `{"node": null}` -/
+theorem c03_repeated_key_error_witness :
+    (Model.ExecStatic.run Defects.none S0 docRepeat none [] w0 10).val =
+      some (.obj [("node", .obj [("__typename", .str "O")])]) ∧
+    (AGV.Spec.Exec.run S0 docRepeat none [] w0 10).val = some (.obj [("node", .null)]) := by
+  constructor <;> rfl
+
+/-- `c03_full` as stated is FALSE, even on valid documents: its data conjunct fails on `docRepeat` -/
+theorem c03_full_refuted : ¬ c03_full := by
+  intro h
+  have h1 := (h S0 docRepeat none [] w0 10 (by simp [fuelBound, selCount, docRepeat, selNode, selReq])).1
+  rw [c03_repeated_key_error_witness.1, c03_repeated_key_error_witness.2] at h1
+  simp at h1
+
+open AGV.Lemmas.ExecStaticData in
+/-- What holds: for every schema, document, variables, world with arbitrary faults and every fuel, under
+    the hypotheses of `c01_data_partial_nodup` (`RunHyps`: consistent schema, inert directives, no
+    repeated response keys, no `Int` leaf for `Float`) and `deepEnough` (the fuel is not exhausted),
+    the model without defects gives the specification's data and every error it reports is one of the
+    specification's errors (same path, same position). -/
+theorem c03_partial_nodup (S : Schema) (d : Doc) (opName : Option String) (raw : List (String × GValue))
+    (w : World) (fuel : Nat)
+    (H : ∀ op, selectOp d opName = some op → RunHyps S d op raw w fuel ∧
+      deepEnough (runCtx S d op raw w) fuel (rootOf S op) (rootOf S op) op.sels = true) :
+    (Model.ExecStatic.run Defects.none S d opName raw w fuel).val = (AGV.Spec.Exec.run S d opName raw w fuel).val ∧
+    ∀ e ∈ (Model.ExecStatic.run Defects.none S d opName raw w fuel).errs, e ∈ (AGV.Spec.Exec.run S d opName raw w fuel).errs :=
+  ⟨run_val_eq S d opName raw w fuel (fun op hop => (H op hop).1), run_errs_sub S d opName raw w fuel H⟩
+
+open AGV.Lemmas.ExecStaticData in
+/-- a non-trivial instance (`Ex.doc1`: fragments on an interface and a union, inert directives, a list;
+    world with a failing resolver and a NaN in a `Float!` position — two errors are reported) -/
+theorem c03_partial_nodup_example :
+    (Model.ExecStatic.run Defects.none Ex.S1 Ex.doc1 none [] Ex.w1 10).val = (AGV.Spec.Exec.run Ex.S1 Ex.doc1 none [] Ex.w1 10).val ∧
+    ∀ e ∈ (Model.ExecStatic.run Defects.none Ex.S1 Ex.doc1 none [] Ex.w1 10).errs,
+      e ∈ (AGV.Spec.Exec.run Ex.S1 Ex.doc1 none [] Ex.w1 10).errs :=
+  c03_partial_nodup Ex.S1 Ex.doc1 none [] Ex.w1 10 Ex.runHyps
+
+open AGV.Lemmas.ExecStaticData in
+/-- OPEN: `c03_partial_nodup` with `deepEnough` replaced by the drivers' fuel bound (needs: fuel
+    `fuelBound d` is never exhausted on documents whose fragment spreads are acyclic). -/
+def c03_fuelbound_full : Prop :=
+  ∀ (S : Schema) (d : Doc) (opName : Option String) (raw : List (String × GValue)) (w : World),
+    ∀ fuel ≥ fuelBound d,
+      (∀ op, selectOp d opName = some op → RunHyps S d op raw w fuel) →
+      (Model.ExecStatic.run Defects.none S d opName raw w fuel).val = (AGV.Spec.Exec.run S d opName raw w fuel).val ∧
+      ∀ e ∈ (Model.ExecStatic.run Defects.none S d opName raw w fuel).errs, e ∈ (AGV.Spec.Exec.run S d opName raw w fuel).errs
 
 end AGV.Props.C03
